@@ -1436,6 +1436,14 @@ class SyncObj(object):
                 for i, consumer in enumerate(self.__consumers):
                     consumer._deserialize(consumersData[i])
 
+            if not clearJournal and len(self.__raftLog) > 0:
+                # The journal may still begin before the dump (the node was stopped after the dump
+                # was written but before the journal was trimmed): trim it now instead of dropping
+                # the entries that follow the dump.
+                diff = data[2][1] - self.__raftLog[0][1]
+                if diff > 0 and self.__raftLog[diff:diff + 2] == [data[2], data[1]]:
+                    self.__deleteEntriesTo(data[2][1])
+
             if clearJournal or \
                     len(self.__raftLog) < 2 or \
                     self.__raftLog[0] != data[2] or \
